@@ -25,7 +25,7 @@ type carrierState struct {
 // (DESIGN §8 C04): {absent, valid-A, valid-B, invalid, malformed, duplicated, empty} for each carrier
 // x endpoint x Origin/Referer situations x publish-origins configurations x cookie name x anonymous.
 func runAuthz(c *h.Ctx, r *h.Report) {
-	r.Rule = "exhaustive enumeration of the abstract credential table through Hub.ServeHTTP: header in {absent, Bearer A, Bearer B, Bearer invalid-signature, too short, no Bearer prefix, duplicated, empty} x query in {absent, A, B, invalid, short, duplicated, empty} x cookie in {absent, A, B, invalid, garbage, duplicated(A then B), empty}; POST publish x Origin {absent, allowed, not allowed} x Referer {absent, allowed, not allowed, unparsable} x publish origins {none, list, '*'} x topic {only-A-may, only-B-may}; GET subscribe and both subscription-API URLs x 3 Origin/Referer situations; all x cookie name {default, custom} x anonymous {on, off}. Tokens A and B carry different rights so the effective identity is observable. Non-trivial = request with at least two carriers present or a cookie on POST; distinct by (configuration, request)."
+	r.Rule = "exhaustive enumeration of the abstract credential table through Hub.ServeHTTP: header in {absent, Bearer A, Bearer B, Bearer invalid-signature, too short, no Bearer prefix, duplicated, empty} x query in {absent, A, B, invalid, short, duplicated, empty} x cookie in {absent, A, B, invalid, garbage, duplicated(A then B), empty}; POST publish x Origin {absent, allowed, not allowed, look-alikes of an allowed origin: suffix / port / prefix / scheme / case, 'null'} x Referer {absent, allowed, not allowed, unparsable, look-alikes} x publish origins {none, list, '*'} x topic {only-A-may, only-B-may}; GET subscribe and both subscription-API URLs x 3 Origin/Referer situations; all x cookie name {default, custom} x anonymous {on, off}. Tokens A and B carry different rights so the effective identity is observable. Non-trivial = request with at least two carriers present or a cookie on POST; distinct by (configuration, request)."
 	r.Exhaustive = true
 	now := time.Now()
 	mk := func(k *jws.Key, claims string) string { return jws.Mint(k, claims) }
@@ -57,8 +57,11 @@ func runAuthz(c *h.Ctx, r *h.Report) {
 					desc     string
 				}
 				var reqs []req
-				originStates := []string{"", "https://allowed.example", "https://evil.example"}
-				refererStates := []string{"", "https://allowed.example/page?x=1", "https://evil.example/", "https://%zz"}
+				// not-allowed origins include look-alikes of an allowed one (suffix, port, prefix, scheme, case)
+				originStates := []string{"", "https://allowed.example", "https://evil.example", "https://allowed.example.evil.test",
+					"https://allowed.example:8443", "https://allowed.exampl", "http://allowed.example", "https://ALLOWED.example", "null"}
+				refererStates := []string{"", "https://allowed.example/page?x=1", "https://evil.example/", "https://%zz",
+					"https://allowed.example.evil.test/x", "https://allowed.example:8443/", "https://evil.example/https://allowed.example"}
 				hs, qs, cs := states(pubA, pubB, pubX)
 				for _, hd := range hs {
 					for _, q := range qs {
